@@ -491,7 +491,8 @@ def call_method(E, st, obj, meth, args, kwargs, after=None):
         pass
     # the most specific of contract / implementation wins: a contract declared on a base class does not
     # describe an override in a subclass
-    if c is not None and ci is not None and c.clsname != ci.name:
+    sh = E.R.shapes.get(cls)
+    if c is not None and ci is not None and c.clsname != ci.name and not (sh is not None and sh.external):
         chain = [x.name for x in E.P.mro(E.P.find_class(cls))]
         if c.clsname in chain and chain.index(ci.name) < chain.index(c.clsname):
             c = None
